@@ -51,6 +51,14 @@ def make(d, cfgkw=None):
                                         config=cfg)
 
 
+FIT_CONFIGS = [
+    {"common_subexpression_elimination": True, "innovation_filtering": 3.0, "max_dt_sec": 0.05, "extra_validation": True},
+    {"common_subexpression_elimination": False, "innovation_filtering": None, "max_dt_sec": 0.25, "extra_validation": True,
+     "python_modules": ("numpy", "math")},
+    {"common_subexpression_elimination": True, "innovation_filtering": 0.5, "max_dt_sec": 1.0, "python_modules": ("numpy", "math")},
+]
+
+
 def domains():
     from formak import python as fpy
     return {
@@ -70,6 +78,10 @@ def cases(tier, seed):
             else [(m, v, x) for m in range(4) for v in (0, 1) for x in range(6)])
     for m, v, x in fits:
         yield {"kind": "fit", "model": m, "noise": v, "matrix": x, "seed": seed}
+    # "created with an explicit configuration": fits from configurations in which EVERY field differs from its default
+    for ci in range(len(FIT_CONFIGS)):
+        for m, x in ((0, 0), (2, 1)) if tier == "quick" else ((0, 0), (2, 1), (1, 2), (3, 3)):
+            yield {"kind": "fit", "model": m, "noise": 0, "matrix": x, "seed": seed, "config": ci}
 
 
 def model_fields(m):
@@ -194,7 +206,9 @@ def eval_fit(case):
     from fv.props.c16 import alphabet
     d = noise_variant(models()[case["model"]], case["noise"])
     tag = f"{d['name']} noise{case['noise']} matrix{case['matrix']}"
-    est = make(d)
+    est = make(d, FIT_CONFIGS[case["config"]] if case.get("config") is not None else None)
+    if case.get("config") is not None:
+        tag += f" config{case['config']}"
     width = len(d["control"]) + sum(len(rs) for _, rs in d["sensors"])
     alpha = alphabet(width, case["seed"] + case["matrix"])
     rows = [[0, 1, 2, 1, 0], [2, 0, 1, 1, 2, 0], [1, 1, 0, 2]][case["matrix"] % 3]
